@@ -19,7 +19,7 @@ LEVEL_TEXT = ("Post-condition monitor on process.interpolate and Weaver.interpol
 LEVEL_NOTE = ("Own piecewise formulas for linear / constant; for cubic / spline only the stated facts are judged (SciPy "
               "internals are not re-implemented), at 1e-9 relative to the data magnitude times the spacing ratio and grid conditioning "
               "(spline systems on 1:1000 spacing ratios amplify rounding).")
-TECHNIQUE = "runtime post-condition monitor per interpolation method vs definitional oracles; Weaver grid contract monitor"
+TECHNIQUE = "runtime post-condition monitor per interpolation method vs definitional oracles; Weaver grid contract monitor; thread-isolation monitor (concurrent vs sequential answers, first-use rounds with sys.monitoring yield injection)"
 RULE = ("case = series of 4..60 points x x class x y class (or affine data) x method x new grid {original abscissae, "
         "inside, on samples and +-1 ulp beside, beyond both ends (judged for 'constant' only)} through the function "
         "(list / array containers) or Weaver.interpolate(n in 2..500 | explicit grid). non-trivial: grid contains "
